@@ -5,11 +5,28 @@ every run; the tie lemmas (Gen = published equation) and the property theorems a
 copies are run against the Python originals (translator validation).  Failing-input search: the property
 oracle below (compositions, zero point, sign, monotonicity, saturation, Henry slope) on the real model
 classes over seeded parameter vectors in the declared bounds.
+
+Beyond the moderate grid (sections 1-3) the oracle is run
+  2b. over the whole declared parameter box x pressures from the extreme low-coverage end (K p down to 1e-18, denormal-free) to near
+      saturation / the validity limit: round trips with the tolerance of each inverse class (conditioned near saturation), the Henry
+      limit decade by decade, sign / saturation / monotonicity, and -- for the rational models -- the EXACT value of the published
+      equation (Model/ModelEval.lean run at Q by Drv/ModelEval.lean; theorems Props/C10/Exact.lean);
+  2c. every model method x every argument kind (python float/int, numpy scalars, 0-d, 1-d, length-1, read-only, strided, reversed,
+      2-d, float32, integer arrays, lists, pandas Series): argument bitwise unchanged, result = element-wise scalar results, a
+      second call gives the identical answer (Props/C10/Range.lean `call_*`);
+  3b. the same through ModelIsotherm.loading_at / pressure_at / spreading_pressure_at with and without unit conversion;
+  3c. whole-range evaluation ModelIsotherm.pressure(points, ...) / .loading(points, ...) against Model/ModelEval.lean
+      (linspace, bare model, linear conversion, strict limits).
+None of these depends on the translation or the proofs having succeeded (`ck.proof_ok`): when a tie breaks they are the search
+for a concrete failing input.
 """
 import math
+from fractions import Fraction as Fr
 
 from pgv.core import import_pygaps
 
+from pgv import c10lib as L
+from pgv.core import frac, parse_q, qstr
 from pgv.models import (HENRY, PEXPLICIT, QUAD_INV, REL_ONLY, ROOT_INV, SAT, bits, henry_probe, logu, make, p_grid, relerr,
                         sample_params, unbits)
 
@@ -172,6 +189,10 @@ def run(ck):
             for p1, n1 in list(zip(ps, nn))[:: (ck.n(3, 2))]:
                 if n1 <= 0 or p1 <= 0:
                     continue
+                if n1 < 1e-290:
+                    continue      # a subnormal loading (DR/DA far down the exponential tail) carries no relative accuracy: outside the denormal-free domain
+                if L.quad_degenerate(name, par):
+                    continue      # see c10lib.quad_degenerate (candidate defect of the unchanged tree, reported)
                 if name in SAT and n1 > 0.95 * SAT[name](par) and name in QUAD_INV | {"Toth", "Langmuir"}:
                     continue      # cancellation close to saturation (tolerance table: up to 0.95 of saturation)
                 try:
@@ -184,19 +205,33 @@ def run(ck):
                     # cancellation in -y - sqrt(y^2 - 4xn): error is absolute on the scale of the pressure range
                     e = abs(back - p1) / (abs(p1) + 1e-3 * ps[-1])
                 note(name + ".pressure∘loading", e)
-                if not e <= tol:
-                    ck.fail_case({**sig0, "clause": "pressure(loading(p))=p"}, {"params": par, "p": p1, "n": float(n1), "back": back, "tol": tol})
+                tol1 = tol
+                if name in REL_ONLY:
+                    # conditioning of the inverse towards p -> 1 (c10lib.dubinin_condition): ten roundings of the loading
+                    tol1 = max(tol, 1e-15 * L.dubinin_condition(name, par, p1, float(n1)))
+                    if not math.isfinite(tol1):
+                        continue
+                if not e <= tol1:
+                    ck.fail_case({**sig0, "clause": "pressure(loading(p))=p"}, {"params": par, "p": p1, "n": float(n1), "back": back, "tol": tol1})
                 if name not in QUAD_INV and name not in ROOT_INV:
                     with np.errstate(all="ignore"):
                         fwd = float(m.loading(np.float64(back)))
                     if relerr(fwd, n1) > 1e-9:
                         ck.fail_case({**sig0, "clause": "loading(pressure(n))=n"}, {"params": par, "n": float(n1), "fwd": fwd})
             # array form of the inverse
-            if name in QUAD_INV:
+            if name in QUAD_INV and not L.quad_degenerate(name, par):
                 with np.errstate(all="ignore"):
                     arr = np.asarray(m.pressure(np.array([0.0, nn[2], nn[3]])), dtype=float)
                 if arr[0] != 0.0 or abs(arr[1] - ps[2]) > 1e-5 * (ps[2] + 1e-3 * ps[-1]):
                     ck.fail_case({**sig0, "clause": "inverse-array"}, {"params": par, "got": arr.tolist(), "expected": [0.0, ps[2], ps[3]]})
+
+    # ------------------------------------------------------------------ 2b/2c. wide sweep and argument kinds on the bare models
+    if not getattr(ck, "proof_ok", True):
+        # the hand-written reference does not depend on the generated files: make sure it is there when the main build stopped early
+        ck.lake_build(["PgVerif.Drv.ModelEval"])
+    wide_sweep(ck, pg, np, models, note)
+    import pandas as pd
+    arg_kinds_bare(ck, pg, np, pd, models)
 
     # ------------------------------------------------------------------ 3. model isotherm wraps the model with unit conversion
     import c01
@@ -249,10 +284,534 @@ def run(ck):
                 back, okk, qb = repr(e), False, None
             if not okk:
                 ck.fail_case({**sig, "fn": "pressure_at"}, {"params": par, "loading": lf, "got": back, "expected": qb})
+    # ------------------------------------------------------------------ 3b/3c. argument kinds and whole-range evaluation through ModelIsotherm
+    through_isotherm(ck, pg, np, pd, models, w, PST, LST, MST, c03)
+    whole_range(ck, pg, np, pd, models, w, PST, LST, MST, c03)
     ck.cov["worst_relative_errors"] = {k: float(f"{v:.3g}") for k, v in sorted(worst.items())}
     ck.cov["rule"] = ("translator validation: every closed-form generated Float function vs its Python original on seeded parameter "
                       "vectors in bounds; property oracle: 16 models x seeded log-uniform parameter vectors x pressure grids in the validity "
                       "range (denser near 0 and the BET/GAB pole): compositions, zero point (scalar/0-d/1-d), sign, monotonicity, saturation, "
-                      "Henry slope, scalar-vs-array; distinct = distinct (model, parameter vector[, function, argument])")
+                      "Henry slope, scalar-vs-array; distinct = distinct (model, parameter vector[, function, argument]); "
+                      "wide sweep: declared parameter box (affinities 1e-9..1e9, capacities 1e-4..1e4) x reduced pressures 1e-18..1e4 / 0.999 of the pole: "
+                      "round trips (conditioned tolerance near saturation), Henry limit per decade, exact rational reference (Lean, Q); "
+                      "argument kinds: 3 methods x 17 kinds on the bare models and through ModelIsotherm.*_at (unchanged argument, element-wise = scalar, "
+                      "second call identical); whole-range ModelIsotherm.pressure()/loading() vs Model/ModelEval.lean")
     ck.assumptions += ["numerical inverses (scipy.optimize.root / minimize) are specified by residual, checked only where the library reports success",
                        "IEEE rounding: tolerances per class of inverse (DESIGN section 7 table)"]
+
+
+# ====================================================================================================================
+#  helpers of the extended oracles
+# ====================================================================================================================
+
+def _call(np, f, arg):
+    try:
+        with np.errstate(all="ignore"):
+            return "ok", f(arg)
+    except Exception as e:  # noqa
+        return "err", e
+
+
+def _capped(ck, per_sig=3):
+    """fail_case that writes at most `per_sig` replays per signature (one defect shows up on thousands of points)."""
+    seen = {}
+
+    def fail(sig, detail):
+        key = tuple(sorted((k, str(v)) for k, v in sig.items()))
+        seen[key] = seen.get(key, 0) + 1
+        if seen[key] > per_sig:
+            return False
+        return ck.fail_case(sig, detail)
+    return fail
+
+
+def _first(np, res):
+    return float(np.asarray(res, dtype=float).ravel()[0])
+
+
+def _domain_values(np, name, par, m, rng, k=5):
+    """k increasing pressures at moderate coverage and the loadings that belong to them (both inside the validity range)."""
+    s = L.kscale(name, par)
+    if name in PEXPLICIT:
+        nmax = par.get("n_m", 5.0)
+        ns = sorted(rng.uniform(0.05, 0.8) * nmax for _ in range(k))
+        with np.errstate(all="ignore"):
+            ps = [float(m.pressure(np.float64(x))) for x in ns]
+        return ps, ns
+    if name in ("BET", "GAB"):
+        ps = sorted(rng.uniform(0.02, 0.8) * s for _ in range(k))
+    elif name in REL_ONLY:
+        ps = sorted(rng.uniform(0.01, 0.9) for _ in range(k))
+    else:
+        ps = sorted(logu(rng, 0.02, 3.0) * s for _ in range(k))
+    with np.errstate(all="ignore"):
+        ns = [float(m.loading(np.float64(x))) for x in ps]
+    return ps, ns
+
+
+def _ints_for(name, par, fn):
+    """Integers for the integer argument kinds, inside the validity range where there is one below 1."""
+    if fn == "pressure":
+        sat = SAT[name](par) if name in SAT else (par.get("n_m") if name in PEXPLICIT else None)
+        return [i for i in (1, 2, 3) if sat is None or i < 0.9 * sat] or [1]
+    if name in ("BET", "GAB"):
+        pole = L.kscale(name, par)
+        return [i for i in (1, 2, 3) if i < 0.9 * pole] or [1]
+    if name in REL_ONLY:
+        return [1]
+    return [1, 2, 3]
+
+
+def check_kinds(ck, np, pd, f, sig, vals, ints, kinds, must_work, closed, tol, compare=True, detail=None, f32_values=True):
+    """One callable x the argument kinds: the argument is bitwise unchanged, the result has the argument's shape and equals the
+    element-wise scalar results, a second call with the same object gives the identical answer; kinds in `must_work` may not raise
+    where the scalar evaluation of every element works."""
+    detail = detail or {}
+    cache = {}
+    fail = _capped(ck, 2)
+
+    def ref_of(v):
+        if v not in cache:
+            st, r = _call(np, f, np.float64(v))
+            try:
+                cache[v] = (st, _first(np, r) if st == "ok" else repr(r)[:120])
+            except Exception as e:  # noqa
+                cache[v] = ("err", repr(e)[:120])
+        return cache[v]
+
+    for v in vals:          # scalar references first, from fresh scalars (nothing an in-place callee could have touched)
+        ref_of(float(v))
+    nbad = 0
+    for kind, (arg, elems) in L.arg_kinds(np, pd, vals, ints).items():
+        if kind not in kinds:
+            continue
+        ck.count(("kind", tuple(sorted(sig.items())), kind, tuple(vals)), bucket="kinds:" + kind)
+        sk = {**sig, "argument": kind}
+        before = L.snap(np, pd, arg)
+        st1, r1 = _call(np, f, arg)
+        if L.snap(np, pd, arg) != before:
+            nbad += fail({**sk, "clause": "argument-unchanged"}, {**detail, "argument_before": repr(elems), "argument_after": repr(arg)[:300]})
+            continue
+        if st1 == "err":
+            if kind in must_work and all(ref_of(e)[0] == "ok" for e in elems):
+                nbad += fail({**sk, "clause": "scalars-and-arrays-alike", "how": "raises"}, {**detail, "argument": repr(arg)[:300], "error": repr(r1)[:300],
+                                                                                                       "scalar_results": [ref_of(e)[1] for e in elems]})
+            continue
+        try:
+            o1 = L.flat(np, r1)
+        except Exception as e:  # noqa
+            nbad += fail({**sk, "clause": "scalars-and-arrays-alike", "how": "not-numeric"}, {**detail, "argument": repr(arg)[:300], "result": repr(r1)[:300]})
+            continue
+        st2, r2 = _call(np, f, arg)
+        o2 = L.flat(np, r2) if st2 == "ok" else None
+        if L.snap(np, pd, arg) != before:
+            nbad += fail({**sk, "clause": "argument-unchanged"}, {**detail, "argument_before": repr(elems), "argument_after": repr(arg)[:300]})
+            continue
+        if o2 is None or not L.same_numbers(o1, o2):
+            nbad += fail({**sk, "clause": "second-call-identical"}, {**detail, "argument": repr(arg)[:300], "first": o1, "second": o2 if o2 is not None else repr(r2)[:200]})
+            continue
+        if len(o1) != len(elems) or (closed and isinstance(arg, np.ndarray) and arg.ndim >= 1 and np.shape(r1) != arg.shape):
+            nbad += fail({**sk, "clause": "scalars-and-arrays-alike", "how": "shape"}, {**detail, "argument": repr(arg)[:300], "result_shape": list(np.shape(r1))})
+            continue
+        if not compare:
+            continue
+        if kind in ("f32", "f32scalar") and not f32_values:
+            continue
+        if kind in ("int", "i64", "i32") and not closed:
+            continue            # (the integers need not lie in the range where a numerical inverse has a unique root)
+        # (float32 input: numpy.log / a unit conversion of a float32 array works in single precision, 6e-8 times the sensitivity of the model)
+        t = max(tol, 1e-3) if kind in ("f32", "f32scalar") else tol
+        for e, o in zip(elems, o1):
+            st, rv = ref_of(e)
+            if st == "ok" and not L.near(o, rv, t):
+                nbad += fail({**sk, "clause": "scalars-and-arrays-alike", "how": "value"},
+                                     {**detail, "argument": repr(arg)[:300], "element": e, "in_array": o, "as_scalar": rv, "tol": t})
+                break
+    return nbad
+
+
+# ====================================================================================================================
+#  2b. the whole declared parameter box x extreme low coverage ... validity limit
+# ====================================================================================================================
+
+def wide_sweep(ck, pg, np, models, note):
+    from pygaps.utilities.exceptions import CalculationError
+    rng = ck.rng
+    fail = _capped(ck)
+    nvec = ck.n(30, 250)
+    n_low, n_high = ck.n(6, 12), ck.n(6, 12)
+    ex_lines, ex_meta = [], []
+    for name in models:
+        for iv in range(nvec):
+            par = L.sample_params_wide(name, rng) if iv % 2 else sample_params(name, rng)
+            m = make(pg, name, par)
+            sig0 = {"model": name, "region": "wide"}
+            ck.count(("wide", name, tuple(par.values())), bucket="wide:" + name)
+            if name in PEXPLICIT:
+                # Henry limit decade by decade in the loading: n / p(n) -> K
+                nmax = par.get("n_m", 5.0)
+                ds = [d for d in range(0, 300) if 1e-9 * nmax * 10.0 ** (-d) > 1e-280 and 1e-9 * nmax * 10.0 ** (-d) / par["K"] > 1e-280]
+                n0 = np.array([1e-9 * nmax * 10.0 ** (-d) for d in ds])
+                with np.errstate(all="ignore"):
+                    pp = np.asarray(m.pressure(n0.copy()), dtype=float)
+                for d, a, b in zip(ds, n0, pp):
+                    e = relerr(float(a) / float(b), par["K"]) if b > 0 else float("inf")
+                    tol = 2e-7 * 10.0 ** (-d) + 1e-13
+                    note(name + ".henry-decades/tol", e / tol)
+                    if not e <= tol:
+                        fail({**sig0, "clause": "henry"}, {"params": par, "n": float(a), "p": float(b), "slope": float(a) / float(b) if b else None, "expected": par["K"], "tol": tol})
+                        break
+                continue
+            pts = sorted(L.sweep_pressures(name, par, rng, n_low, n_high), key=lambda t_: t_[1])
+            if name in REL_ONLY:
+                pts = [t_ for t_ in pts if t_[0] <= 0.99]      # (the inverse is ill-conditioned as p -> 1: covered by the moderate grid)
+            xs = [x for x, _ in pts]
+            ps = [p for _, p in pts]
+            with np.errstate(all="ignore"):
+                nn = np.asarray(m.loading(np.array(ps)), dtype=float)
+            det = {"params": par, "pressures": ps, "loadings": nn.tolist()}
+            if np.any(nn < 0) or np.any(~np.isfinite(nn)):
+                fail({**sig0, "clause": "nonneg/finite"}, det)
+            if np.any(np.diff(nn) < -1e-12 * np.abs(nn[1:])):
+                fail({**sig0, "clause": "monotone"}, det)
+            if name in SAT and np.any(nn > SAT[name](par) * (1 + 1e-12)):
+                fail({**sig0, "clause": "saturation"}, {**det, "sat": SAT[name](par)})
+            # exact value of the published rational equation (Lean, Q)
+            if name in L.RATIONAL:
+                plist = "[" + ";".join(qstr(float(par[k])) for k in m.param_names) + "]"
+                for x, p1, n1 in list(zip(xs, ps, nn))[:: ck.n(2, 1)]:
+                    if n1 > 1e-290 and math.isfinite(n1):
+                        ex_lines.append(f"ev {name} loading {plist} {qstr(p1)}")
+                        ex_meta.append((name, "loading", par, x, p1, float(n1)))
+            # round trips with the tolerance of the inverse class
+            pmax = ps[-1] if ps else 1.0
+            for x, p1, n1 in zip(xs, ps, nn):
+                if not (n1 > 1e-290) or not math.isfinite(n1):
+                    continue            # (loading underflows: DR/DA far down the exponential tail)
+                if name in ROOT_INV and (iv % 2 or not 1e-6 <= x <= 1e2):
+                    continue            # numerical inverses: the box and range on which the library's solver was measured
+                amp = 1.0
+                if name in QUAD_INV:
+                    # TODO(candidate genuine defect, reported; keep this region out until it is decided): the quadratic-formula inverses
+                    # (BET, GAB, DSLangmuir, Quadratic `pressure`) lose their RELATIVE accuracy at low coverage -- cancellation in
+                    # -y - sqrt(y^2 - 4 x n), relative error ~ 1e-16 y^2 / (x n): BET(n_m=1, C=50, N=0.4): pressure(loading(1e-7)) is off by
+                    # 8e-5, at 1e-8 by 3e-3, pressure(loading(1e-9)) = -0.0.  The tolerance table states their tolerance on the scale of the
+                    # pressure range on the moderate grid (section 2 above); the forward direction is still checked here over the whole box
+                    # (exact rational reference, Henry decades).
+                    continue
+                elif name in ("Langmuir", "Toth"):
+                    th = n1 / par["n_m"]
+                    if th >= 1 - 1e-9:
+                        continue
+                    # conditioning of the inverse (Props/C10/Exact.lean `exact_langmuirInv_rel`): d ln p / d ln n = 1 / (1 - theta^t)
+                    amp = max(1.0, 1 / (1 - th), 1 / (1 - th ** par.get("t", 1.0)))
+                try:
+                    with np.errstate(all="ignore"):
+                        back = _first(np, m.pressure(np.float64(n1)))
+                except CalculationError:
+                    continue
+                e = relerr(back, p1)
+                tol = (1e-4 if name in ROOT_INV else 1e-10) * amp
+                if name in REL_ONLY:
+                    tol = max(tol, 1e-15 * L.dubinin_condition(name, par, p1, float(n1)))
+                    if not math.isfinite(tol):
+                        continue
+                note(name + ".wide.pressure∘loading/tol", e / tol)
+                if not e <= tol:
+                    fail({**sig0, "clause": "pressure(loading(p))=p"}, {"params": par, "p": p1, "K*p": x, "n": float(n1), "back": back, "tol": tol})
+                    break
+                if name == "Langmuir" and math.isfinite(back):
+                    ex_lines.append(f"ev {name} pressure {plist} {qstr(float(n1))}")
+                    ex_meta.append((name, "pressure", par, x, float(n1), back))
+            # the other composition from the saturation end: loading(pressure(n)) = n for n up to (1 - 1e-12) n_m
+            if name in ("Langmuir", "Toth"):
+                for _ in range(ck.n(3, 6)):
+                    n1 = par["n_m"] * (1 - logu(rng, 1e-12, 0.5))
+                    with np.errstate(all="ignore"):
+                        p1 = float(m.pressure(np.float64(n1)))
+                        fwd = float(m.loading(np.float64(p1))) if math.isfinite(p1) else float("nan")
+                    if not math.isfinite(p1):
+                        continue        # Toth with a small exponent: the pressure overflows before the loading reaches n_m
+                    note(name + ".wide.loading∘pressure", relerr(fwd, n1))
+                    if not relerr(fwd, n1) <= 1e-9:
+                        fail({**sig0, "clause": "loading(pressure(n))=n"}, {"params": par, "n": n1, "p": p1, "fwd": fwd})
+                        break
+            # Henry limit decade by decade below the probe of the moderate oracle
+            if name in HENRY:
+                k = HENRY[name](par)
+                p0 = henry_probe(name, par)
+                alpha = L.henry_alpha(name, par)
+                ds = [d for d in range(1, 300) if p0 * 10.0 ** (-d) > 1e-280 and k * p0 * 10.0 ** (-d) > 1e-280]
+                pa = np.array([p0 * 10.0 ** (-d) for d in ds])
+                with np.errstate(all="ignore"):
+                    na = np.asarray(m.loading(pa.copy()), dtype=float) if ds else []
+                for d, a, b in zip(ds, pa, na):
+                    e = relerr(float(b) / float(a), k)
+                    tol = 4e-9 * 10.0 ** (-d * alpha) + 1e-13
+                    note(name + ".henry-decades/tol", e / tol)
+                    if not e <= tol:
+                        fail({**sig0, "clause": "henry"}, {"params": par, "p": float(a), "slope": float(b) / float(a), "expected": k, "tol": tol})
+                        break
+    # exact reference
+    if ex_lines:
+        try:
+            replies = ck.drive("ModelEval", ex_lines)
+        except Exception as e:  # noqa
+            replies = None
+            ck.broken.append({"step": "driver ModelEval", "what": str(e)[:600]})
+        for (name, fn, par, x, arg, got), rep in zip(ex_meta, replies or []):
+            t = rep.split()
+            ck.count(("exact", name, fn, arg, tuple(par.values())), bucket=f"exact:{name}.{fn}")
+            if t[0] != "ok":
+                ck.broken.append({"step": "driver ModelEval", "what": {"model": name, "fn": fn, "reply": rep}})
+                continue
+            ex = parse_q(t[1])
+            if fn == "loading":
+                cond = 1 / (1 - x) if name in ("BET", "GAB") else 1.0       # 1 - N p is a difference of rounded numbers near the pole
+                tol = 2e-13 + 2e-15 * cond
+            else:
+                th = arg / par["n_m"]
+                tol = 2e-13 * max(1.0, 1 / (1 - th))
+            e = float(abs(Fr(got) - ex) / abs(ex)) if ex != 0 else (0.0 if got == 0 else float("inf"))
+            note(f"{name}.{fn}.vs-exact/tol", e / tol)
+            if not e <= tol:
+                fail({"model": name, "region": "wide", "clause": "value-of-the-published-equation", "fn": fn},
+                             {"params": par, "argument": arg, "K*p": x, "library": got, "exact": float(ex), "relative_error": e, "tol": tol})
+    ck.cov["exact_reference_cases"] = len(ex_lines)
+
+
+# ====================================================================================================================
+#  2c. every method x every argument kind on the bare models
+# ====================================================================================================================
+
+def arg_kinds_bare(ck, pg, np, pd, models):
+    rng = ck.rng
+    for name in models:
+        for iv in range(ck.n(3, 12)):
+            par = sample_params(name, rng)
+            m = make(pg, name, par)
+            pvals, nvals = _domain_values(np, name, par, m, rng)
+            for fn in ("loading", "pressure", "spreading_pressure"):
+                if fn == "spreading_pressure" and name in L.NO_SPREAD:
+                    continue
+                vals = nvals if fn == "pressure" else pvals
+                if not all(math.isfinite(v) and v > 0 for v in vals) or len(set(vals)) < len(vals):
+                    continue
+                closed = L.closed_form(name, fn)
+                scalar_only = fn == "spreading_pressure" and name in L.QUAD_SPREAD
+                kinds = L.SCALAR_KINDS if scalar_only else L.SCALAR_KINDS + L.ARRAY_KINDS + L.SEQ_KINDS
+                if not closed and not scalar_only:
+                    kinds = tuple(k_ for k_ in kinds if k_ != "2d")          # a root solver takes vectors
+                must = kinds if (closed or scalar_only) else ()
+                must = tuple(k_ for k_ in must if k_ not in L.SEQ_KINDS)      # bare model methods take numbers and arrays
+                # numerical inverses: the vector solve agrees with the scalar one to the solver's tolerance; the VST / Virial
+                # inverses only for the unchanged argument and the repeatable answer (known findings S24, S24b, S24c)
+                compare = closed or scalar_only or (name in ROOT_INV and name not in PEXPLICIT)
+                tol = 1e-13 if closed else (1e-12 if scalar_only else 1e-3)
+                if fn == "pressure" and name in QUAD_INV:
+                    # the cancellation in -y - sqrt(y^2 - 4 x n) amplifies a last-bit difference between numpy's scalar and array paths
+                    # (observed 2e-13 .. 1e-9); a wrong element is off by O(1)
+                    tol = 1e-6
+                    compare = not L.quad_degenerate(name, par)
+                check_kinds(ck, np, pd, getattr(m, fn), {"model": name, "fn": fn}, vals, _ints_for(name, par, fn), kinds, must, closed, tol,
+                            compare=compare, detail={"params": par})
+
+
+# ====================================================================================================================
+#  3b. the same through ModelIsotherm.loading_at / pressure_at / spreading_pressure_at
+# ====================================================================================================================
+
+def _labels(rng, PST, LST, MST):
+    st_p, st_l, st_m = rng.choice(PST), rng.choice(LST[:-2]), rng.choice(MST)
+    return [st_p[0], st_p[1], st_l[0], st_l[1], st_m[0], st_m[1], "K"]
+
+
+def _miso(pg, m, lab):
+    return pg.ModelIsotherm(model=m, material="pgv_mat", adsorbate="pgv_stub", temperature=77.0,
+                            pressure_mode=lab[0], pressure_unit=lab[1], loading_basis=lab[2], loading_unit=lab[3],
+                            material_basis=lab[4], material_unit=lab[5], temperature_unit="K")
+
+
+def through_isotherm(ck, pg, np, pd, models, w, PST, LST, MST, c03):
+    rng = ck.rng
+    P = w.props
+    for it in range(ck.n(16, 96)):
+        name = models[it % len(models)]
+        par = sample_params(name, rng)
+        lab = _labels(rng, PST, LST, MST)
+        m = make(pg, name, par)
+        miso = _miso(pg, m, lab)
+        bare = miso.model
+        pvals, nvals = _domain_values(np, name, par, bare, rng)
+        if not all(math.isfinite(v) and v > 0 for v in pvals + nvals) or len(set(pvals)) < 5 or len(set(nvals)) < 5:
+            continue
+        convert = rng.random() < 0.5
+        rq_p, rq_l, rq_m = rng.choice(PST), rng.choice(LST[:-2]), rng.choice(MST)
+        kw_p = dict(pressure_mode=rq_p[0], pressure_unit=rq_p[1]) if convert else {}
+        kw_l = dict(loading_basis=rq_l[0], loading_unit=rq_l[1], material_basis=rq_m[0], material_unit=rq_m[1]) if convert else {}
+        f_p = P.scale_p(lab[0], lab[1]) / P.scale_p(rq_p[0], rq_p[1]) if convert else Fr(1)      # stored -> requested
+        f_l = c03.expected_loading(P, lab, rq_l, rq_m, 1.0) if convert else Fr(1)
+        qs = [float(frac(v) * f_p) for v in pvals]          # the pressures / loadings in the requested representation
+        ls = [float(frac(v) * f_l) for v in nvals]
+        base = {"model": name, "through": "ModelIsotherm", "converted": convert}
+        det = {"params": par, "stored": [str(x) for x in lab[:6]], "requested": [str(x) for x in rq_p + rq_l + rq_m] if convert else None}
+        all_kinds = L.SCALAR_KINDS + L.ARRAY_KINDS + L.SEQ_KINDS
+        for meth, fn, vals, kw in (("loading_at", "loading", qs, {**kw_p, **kw_l}), ("pressure_at", "pressure", ls, {**kw_p, **kw_l}),
+                                   ("spreading_pressure_at", "spreading_pressure", qs if (not convert or (lab[0] == "absolute" and rq_p[0] == "absolute")) else pvals,
+                                    kw_p if (convert and lab[0] == "absolute" and rq_p[0] == "absolute") else {})):
+            if fn == "spreading_pressure" and name in L.NO_SPREAD:
+                continue
+            closed = L.closed_form(name, fn)
+            scalar_only = fn == "spreading_pressure" and name in L.QUAD_SPREAD
+            kinds = L.SCALAR_KINDS if scalar_only else all_kinds
+            if not closed and not scalar_only:
+                kinds = tuple(k_ for k_ in kinds if k_ != "2d")
+            must = kinds if (closed or scalar_only) else ()          # `numpy.asarray` in the accessor: sequences are arguments here
+            compare = closed or scalar_only or (name in ROOT_INV and name not in PEXPLICIT)
+            tol = 1e-13 if closed else (1e-12 if scalar_only else 1e-3)
+            if fn == "pressure" and name in QUAD_INV:
+                tol = 1e-6
+                compare = not L.quad_degenerate(name, par)
+            f = (lambda a, meth=meth, kw=kw: getattr(miso, meth)(a, **kw))
+            nbad = check_kinds(ck, np, pd, f, {**base, "fn": meth}, vals, [1, 2, 3], kinds, must, closed, tol, compare=compare, detail=det, f32_values=not kw)
+            # ... and the numbers are the bare model's after unit conversion (vector call, the caller's array kept)
+            if nbad or not closed or name in QUAD_INV and fn == "pressure":
+                continue
+            arr = np.array(vals)
+            st, got = _call(np, f, arr)
+            if fn == "loading":
+                exp = [float(frac(float(bare.loading(np.float64(float(frac(q) / f_p))))) * f_l) for q in vals]
+            elif fn == "pressure":
+                exp = [float(frac(float(bare.pressure(np.float64(float(frac(l_) / f_l))))) * f_p) for l_ in vals]
+            else:
+                fq = f_p if kw else Fr(1)
+                exp = [float(bare.spreading_pressure(np.float64(float(frac(q) / fq)))) for q in vals]
+            ck.count(("wrapv", name, meth, tuple(lab[:6]), convert), bucket="model-isotherm-vector")
+            okk = st == "ok" and len(L.flat(np, got)) == len(exp) and all(L.near(a, b, 1e-9 if fn != "pressure" else 1e-7) for a, b in zip(L.flat(np, got), exp))
+            if not okk:
+                ck.fail_case({**base, "clause": "model-isotherm-wraps", "fn": meth}, {**det, "argument": vals, "got": L.flat(np, got) if st == "ok" else repr(got)[:300], "expected": exp})
+
+
+# ====================================================================================================================
+#  3c. whole-range evaluation ModelIsotherm.pressure(points, ...) / .loading(points, ...)
+# ====================================================================================================================
+
+def whole_range(ck, pg, np, pd, models, w, PST, LST, MST, c03):
+    rng = ck.rng
+    P = w.props
+    cases, lines = [], []
+    for it in range(ck.n(32, 192)):
+        name = models[it % len(models)]
+        par = sample_params(name, rng)
+        m = make(pg, name, par)
+        pvals, nvals = _domain_values(np, name, par, m, rng)
+        if not all(math.isfinite(v) and v > 0 for v in pvals + nvals) or pvals[0] >= pvals[-1] or nvals[0] >= nvals[-1]:
+            continue
+        m.pressure_range = (pvals[0], pvals[-1])
+        m.loading_range = (nvals[0], nvals[-1])
+        lab = _labels(rng, PST, LST, MST)
+        miso = _miso(pg, m, lab)
+        npts = rng.choice([1, 2, 3, 5, 17, 60])
+        lo, hi = (nvals[0], nvals[-1]) if name in PEXPLICIT else (pvals[0], pvals[-1])
+        cases.append((name, par, miso, lab, npts, lo, hi))
+        lines.append(f"lin {qstr(lo)} {qstr(hi)} {npts}")
+    try:
+        grids = ck.drive("ModelEval", lines)
+    except Exception as e:  # noqa
+        ck.broken.append({"step": "driver ModelEval", "what": str(e)[:600]})
+        return
+    plan, lines2 = [], []
+
+    def pick_limits(approx):
+        """limits for the accessor: not given / falsy / midpoints between two neighbouring expected values"""
+        srt = sorted(set(approx))
+        mids = [0.5 * (a + b) for a, b in zip(srt, srt[1:]) if b - a > 1e-6 * max(abs(a), abs(b))]
+        r = rng.random()
+        if r < 0.25 or not srt:
+            return None
+        if r < 0.35:
+            return (None, None)
+        if r < 0.45:
+            return (0, None)
+        if not mids:
+            return (None, srt[-1] * 2 if srt[-1] > 0 else None)
+        a = rng.choice(mids)
+        b = rng.choice(mids)
+        a, b = min(a, b), max(a, b)
+        r = rng.random()
+        return (a, None) if r < 0.3 else ((None, b) if r < 0.6 else ((a, b) if a < b else (a, None)))
+
+    def lim_tok(lim):
+        if lim is None:
+            return "- -"
+        return " ".join("~" if x is None else qstr(x) for x in lim)
+
+    for (name, par, miso, lab, npts, lo, hi), rep in zip(cases, grids):
+        t = rep.split()
+        if t[0] != "ok":
+            ck.broken.append({"step": "driver ModelEval", "what": rep})
+            continue
+        grid = [parse_q(x) for x in t[1][1:-1].split(";")] if t[1] != "[]" else []
+        gf = [float(g) for g in grid]
+        bare = miso.model
+        convert = rng.random() < 0.6
+        rq_p, rq_l, rq_m = rng.choice(PST), rng.choice(LST), rng.choice(MST)
+        f_p = P.scale_p(lab[0], lab[1]) / P.scale_p(rq_p[0], rq_p[1]) if convert else Fr(1)
+        f_l = c03.expected_loading(P, lab, rq_l, rq_m, 1.0) if convert else Fr(1)
+        kw_p = dict(pressure_mode=rq_p[0], pressure_unit=rq_p[1]) if convert else {}
+        kw_l = dict(loading_basis=rq_l[0], loading_unit=rq_l[1], material_basis=rq_m[0], material_unit=rq_m[1]) if convert else {}
+        with np.errstate(all="ignore"):
+            if name in PEXPLICIT:
+                l_src = gf
+                p_src = [float(bare.pressure(np.float64(g))) for g in gf]
+            else:
+                p_src = gf
+                l_src = [float(bare.loading(np.float64(g))) for g in gf]
+        for acc, src, f_, kw in (("pressure", p_src, f_p, kw_p), ("loading", l_src, f_l, kw_l)):
+            if not all(math.isfinite(v) for v in src):
+                continue
+            approx = [float(frac(v) * f_) for v in src]
+            lim = pick_limits(approx)
+            indexed = rng.random() < 0.3
+            plan.append((name, par, miso, lab, npts, acc, kw, lim, indexed, convert, (rq_p, rq_l, rq_m)))
+            lines2.append(f"sel [{';'.join(qstr(v) for v in src)}] {qstr(f_)} {lim_tok(lim)}")
+            if npts >= 2 and rng.random() < 0.35:
+                # strictness of the limits: values of the accessor's OWN unfiltered answer as limits (exact ties whatever the conversion);
+                # the unfiltered answer itself is compared with the model by the entry above or by another case
+                st, u = _call(np, lambda a: getattr(miso, acc)(**a), dict(points=npts, **kw))
+                if st == "ok" and len(L.flat(np, u)) >= 2 and all(math.isfinite(v) for v in L.flat(np, u)):
+                    u = L.flat(np, u)
+                    lo_, hi_ = min(u), max(u)
+                    tie = rng.choice([(lo_, hi_), (lo_, None), (None, hi_), (u[len(u) // 2], None)])
+                    plan.append((name, par, miso, lab, npts, acc, kw, tie, False, convert, (rq_p, rq_l, rq_m)))
+                    lines2.append(f"sel [{';'.join(qstr(v) for v in u)}] 1/1 {lim_tok(tie)}")
+    try:
+        sels = ck.drive("ModelEval", lines2)
+    except Exception as e:  # noqa
+        ck.broken.append({"step": "driver ModelEval", "what": str(e)[:600]})
+        return
+    for (name, par, miso, lab, npts, acc, kw, lim, indexed, convert, rq), rep, line in zip(plan, sels, lines2):
+        t = rep.split()
+        if t[0] != "ok":
+            ck.broken.append({"step": "driver ModelEval", "what": {"request": line[:300], "reply": rep}})
+            continue
+        exp = [float(parse_q(x)) for x in t[1][1:-1].split(";")] if t[1] != "[]" else []
+        args = dict(points=npts, **kw)
+        if lim is not None:
+            args["limits"] = lim
+        if indexed:
+            args["indexed"] = True
+        sig = {"clause": "model-isotherm-whole-range", "model": name, "accessor": acc, "converted": convert}
+        ck.count(("range", name, acc, tuple(lab[:6]), npts, repr(lim), convert), bucket="whole-range:" + acc)
+        st, got = _call(np, lambda a: getattr(miso, acc)(**a), args)
+        det = {"params": par, "stored": [str(x) for x in lab[:6]], "range": [list(miso.model.pressure_range), list(miso.model.loading_range)],
+               "call": {k_: (str(v) if not isinstance(v, (int, float, tuple, type(None))) else v) for k_, v in args.items()}}
+        if st != "ok":
+            ck.fail_case({**sig, "how": "raises"}, {**det, "error": repr(got)[:300]})
+            continue
+        if indexed and not isinstance(got, pd.Series):
+            ck.fail_case({**sig, "how": "indexed"}, {**det, "type": type(got).__name__})
+            continue
+        gl = L.flat(np, got)
+        if len(gl) != len(exp) or not all(L.near(a, b, 1e-9) for a, b in zip(gl, exp)):
+            ck.fail_case({**sig, "how": "values"}, {**det, "got": gl, "expected": exp})
